@@ -170,3 +170,19 @@ Proof. apply regex_ref_unavailable. cbn. right; left; reflexivity. Qed.
 Lemma like_pattern_available_without_feature j id x e :
   compiles_in false (expand j (PLike id x) e) = true.
 Proof. reflexivity. Qed.
+
+(* ---- the same statements about the front-end model itself (Parser.v, FrontEnd.v) ---------------- *)
+From ASModel Require Import Parser FrontEnd.
+From ASProofs Require Import RejectP.
+
+(* the macro a dependent crate gets is the same function of the tokens in both configurations *)
+Lemma same_macro_both_configs : forall j pe pp pc start ts,
+  front_end_from (macro_regex repo_wiring DefaultOff) j pe pp pc start ts =
+  front_end_from (macro_regex repo_wiring DefaultOn) j pe pp pc start ts.
+Proof. intros. apply (repo_same_front_end _ (fun r => front_end_from r j pe pp pc start ts)). Qed.
+
+(* were the macro crate built without its feature, `=` `~` would be a parse error on the `=` (never another meaning) *)
+Lemma tilde_is_an_error_without_the_macro_feature : forall j pe pp pc f sc st jt sp r,
+  toks st = TTPunct "=" jt sp :: r -> peek_punct "=" r = false ->
+  p_pattern false j pe pp pc (S f) sc st = PErr sp (ctr st).
+Proof. intros. eapply eq_needs_eq_or_tilde; [eassumption|assumption|reflexivity]. Qed.
